@@ -321,7 +321,12 @@ class Session:
         names = sorted(n for n in dir(cls) if not n.startswith("_") and callable(getattr(cls, n)) and not isinstance(getattr(cls, n), type))
         dunders = sorted(n for n in vars(cls) if n.startswith("__") and callable(vars(cls)[n]) and n not in ("__init__",))
         desc = [describe("__init__", cls.__init__)] + [describe(n, getattr(cls, n)) for n in names] + [describe(n, vars(cls)[n]) for n in dunders]
-        fields = sorted(a for a in vars(mh.m if what == "model" else mh.m.rating()) if not isinstance(vars(mh.m if what == "model" else mh.m.rating())[a], type))
+        inst = mh.m if what == "model" else mh.m.rating()
+        names_ = set(getattr(inst, "__dict__", {}))
+        for c in type(inst).__mro__:                      # classes with __slots__ have no instance __dict__
+            sl = c.__dict__.get("__slots__", ())
+            names_ |= set([sl] if isinstance(sl, str) else sl)
+        fields = sorted(a for a in names_ if not a.startswith("__") and hasattr(inst, a) and not isinstance(getattr(inst, a), type))
         desc.append("fields:" + ",".join(fields))
         ev = {"op": "api", "what": what, "kind": mh.kind,
               "out": {"kind": "ok", "exc": "", "value": self.enc(desc)}}
